@@ -87,6 +87,10 @@ def check(ctx):
         ctx.touch(fn)
         if not en:
             raise AnalysisBroken("enum %s has no enumerators" % ename)
+        deleg = [r for r in fn.rets() if "val" in r.d and vf.expr(fn, r["val"])[0] == "call" and pdb.has_fn(vf.expr(fn, r["val"])[1])]
+        if deleg:
+            raise AnalysisBroken("%s hands the conversion to %s: the table lookup is no longer in the function itself, and the evaluation of its "
+                                 "cells does not follow pointers to tables through a call" % (fname, vf.expr(fn, deleg[0]["val"])[1]))
         okc, bad, consts = dt.arg_uses_compare_only(fn, 0)
         for name, v in sorted(en.items(), key=lambda kv: kv[1]):
             outs, fl = dt.eval_cell(fn, pdb, {0: v}, events=_events(pdb, fn))
